@@ -32,6 +32,10 @@ def gate():
 
 
 def main():
+    import fcntl
+    os.makedirs(os.path.join(VERIF, ".work"), exist_ok=True)
+    lock = open(os.path.join(VERIF, ".work", ".coq.lock"), "w")
+    fcntl.flock(lock, fcntl.LOCK_EX)
     files = []
     for d in ("Base", "Model", "Proofs"):
         files += sorted(glob.glob(os.path.join(COQ, d, "**", "*.v"), recursive=True))
@@ -42,8 +46,9 @@ def main():
     r = subprocess.run(["coq_makefile", "-f", "_CoqProject", "-o", "Makefile"], cwd=COQ)
     if r.returncode:
         sys.exit(r.returncode)
-    r = subprocess.run(["timeout", "7000", "make", "-C", COQ, "-j16"])
+    r = subprocess.run(["timeout", "7000", "make", "-C", COQ, "-j16", "-k"])
     if r.returncode:
+        print("SETUP: some Coq files failed to build (see above)")
         sys.exit(r.returncode)
     if "--no-gate" not in sys.argv:
         bad = gate()
